@@ -97,6 +97,43 @@ type Reserved struct {
 type ExtRange struct {
 	Ranges [][2]int64
 	Opts   []Option
+	// extension declarations (ExtensionRangeOptions.declaration / .verification)
+	Decls        []ExtDecl
+	Verification string // "", "DECLARATION" or "UNVERIFIED"
+}
+
+// ExtDecl is one `declaration = { ... }` of an extension range; empty strings are absent fields.
+type ExtDecl struct {
+	Number   int64
+	FullName string
+	Type     string
+	Reserved bool
+	Repeated bool
+}
+
+// AllOpts lists the options of the range statement as they are printed.
+func (d *ExtRange) AllOpts() []Option {
+	out := append([]Option(nil), d.Opts...)
+	if d.Verification != "" {
+		out = append(out, Option{"verification", d.Verification})
+	}
+	for _, x := range d.Decls {
+		parts := []string{fmt.Sprintf("number: %d", x.Number)}
+		if x.FullName != "" {
+			parts = append(parts, fmt.Sprintf("full_name: %q", x.FullName))
+		}
+		if x.Type != "" {
+			parts = append(parts, fmt.Sprintf("type: %q", x.Type))
+		}
+		if x.Reserved {
+			parts = append(parts, "reserved: true")
+		}
+		if x.Repeated {
+			parts = append(parts, "repeated: true")
+		}
+		out = append(out, Option{"declaration", "{ " + strings.Join(parts, " ") + " }"})
+	}
+	return out
 }
 
 type ExtBlock struct {
@@ -271,7 +308,7 @@ func printDecl(b *strings.Builder, d any, ind string) {
 		}
 		fmt.Fprintf(b, "%sreserved %s;\n", ind, strings.Join(parts, ", "))
 	case *ExtRange:
-		fmt.Fprintf(b, "%sextensions %s%s;\n", ind, rangesText(d.Ranges), compact(d.Opts))
+		fmt.Fprintf(b, "%sextensions %s%s;\n", ind, rangesText(d.Ranges), compact(d.AllOpts()))
 	case *Option:
 		fmt.Fprintf(b, "%soption %s = %s;\n", ind, d.Name, d.Value)
 	case *ExtBlock:
